@@ -8,6 +8,10 @@ use avra_lib::builder::build_str;
 
 pub fn observe(text: &str) -> String {
     let r = std::panic::catch_unwind(|| build_str(text));
+    render(r)
+}
+
+pub fn render<E: std::fmt::Display>(r: std::thread::Result<Result<avra_lib::builder::BuildResult, E>>) -> String {
     match r {
         Err(_) => "PANIC".to_string(),
         Ok(Err(e)) => match first_line_number(&e.to_string()) {
@@ -57,6 +61,10 @@ pub fn worker() -> i32 {
 /// that dies (stack overflow, abort, out of memory) yields CRASH, one that does not answer within
 /// the time limit yields TIMEOUT; a fresh worker is started for the next case
 pub fn main() -> i32 {
+    parent("build-worker")
+}
+
+pub fn parent(worker_cmd: &str) -> i32 {
     use std::io::{BufRead, BufReader, Write};
     use std::process::{Command, Stdio};
     use std::sync::mpsc;
@@ -66,7 +74,7 @@ pub fn main() -> i32 {
     let spawn = || {
         let mut child = Command::new("sh")
             .arg("-c")
-            .arg(format!("ulimit -v 3000000; exec '{}' build-worker", exe.display()))
+            .arg(format!("ulimit -v 3000000; exec '{}' {}", exe.display(), worker_cmd))
             .stdin(Stdio::piped())
             .stdout(Stdio::piped())
             .stderr(Stdio::null())
